@@ -47,6 +47,7 @@ static void run_case_body(std::ostream& os, uint64_t s0, long long id, const std
   std::vector<int> cts = {1, 2, 3, 4}, frs = {0, 1, 2, 3}, pcs = {0, 1}, rss = {0, 1};
   if (cfg == "lite") { pcs = {0}; rss = {0}; }
   bool first = true; const bool batch = cfg == "batch"; std::vector<std::string> xs;
+  PolyTree64 tree;   // ONE tree object reused for every tree execution of the case (Execute must clear it itself)
   auto exec_ev = [&](int ct, int fr, int pc, int rs, int tree, bool ok, int k) {
     if (batch) xs.push_back(jints({ct, fr, pc, rs, tree, ok, k}));
     else os << Ev("Exec").kn("ct", ct).kn("fr", fr).kn("pc", pc).kn("rs", rs).kn("tree", tree).kn("ok", ok).kn("k", k).str() << "\n";
@@ -56,7 +57,7 @@ static void run_case_body(std::ostream& os, uint64_t s0, long long id, const std
     int k = reg.get(p.closed);
     exec_ev(ct, fr, pc, rs, 0, p.ok, k);
     if (cfg != "notree") {
-      PolyTree64 tree; ExecRes t = run_exec(ES, none, EC, ct, fr, pc, rs, &tree); ++nexec;
+      ExecRes t = run_exec(ES, none, EC, ct, fr, pc, rs, &tree); ++nexec;
       int kt = reg.get(t.closed);
       exec_ev(ct, fr, pc, rs, 1, t.ok, kt);
       Paths64 nodes; std::vector<long long> par; flatten_tree(tree, 0, nodes, par);
@@ -112,6 +113,16 @@ static int cmd_bool(const Args& a) {
         for (int k = 0; k < kids; ++k) if (r.range(0, 5)) rec(cx0 + k * (w + 3), y0 + 3, cx0 + k * (w + 3) + w, y1 - 3, d + 1);
       };
       (void)diamond; rec(0, 0, 60, 40, 0); if (S.empty()) { S = C; C.clear(); } emit(S, C); }
+  } else if (fam == "ringrect") {   // concentric square rings + rectangles whose horizontal edges are collinear with ring edges (horizontal joins merge nested rings)
+    for (long long i = 0; i < n; ++i) { S.clear(); C.clear(); int k = (int)r.range(3, 6); int64_t c0 = 40, gap = 4;
+      for (int j = 0; j < k; ++j) { int64_t rad = gap * (k - j) + 2 * (int64_t)r.range(0, 1) * 0; Path64 p = {{c0 - rad, c0 - rad}, {c0 + rad, c0 - rad}, {c0 + rad, c0 + rad}, {c0 - rad, c0 + rad}}; if (r.range(0, 3) == 0) std::reverse(p.begin(), p.end()); S.push_back(p); }
+      int nr = (int)r.range(1, 2);
+      for (int j = 0; j < nr; ++j) { int ring = (int)r.range(0, k - 1); int64_t rad = gap * (k - ring); bool top = r.coin();
+        int64_t ya = top ? c0 + rad : c0 - rad, yb = ya + 2 * (r.coin() ? 1 : -1) * (int64_t)r.range(1, 2 * k);
+        int64_t xa = c0 - 2 * (int64_t)r.range(0, 2 * k + 2), xb = c0 + 2 * (int64_t)r.range(1, 2 * k + 2);
+        Path64 q = {{xa, std::min(ya, yb)}, {xb, std::min(ya, yb)}, {xb, std::max(ya, yb)}, {xa, std::max(ya, yb)}};
+        (r.coin() ? S : C).push_back(q); }
+      emit(S, C); }
   } else if (fam == "degen") {  // arbitrary / degenerate inputs: only the "all inputs" clauses are judged by the spec
     for (long long i = 0; i < n; ++i) { S.clear(); C.clear();
       auto dp = [&]() { Path64 p; int nv = (int)r.range(0, 7); int g = (int)r.range(2, 9);
